@@ -228,6 +228,8 @@ func randomPosition(r *RNG) *tak.Position {
 	size := 3 + r.Intn(6)
 	x := r.Intn(100)
 	switch {
+	case x < 8:
+		return groupsBoard(r, size)
 	case x < 45:
 		return constructed(r, size)
 	case x < 50:
@@ -246,4 +248,112 @@ func randomPosition(r *RNG) *tak.Position {
 		})
 		return keep
 	}
+}
+
+// groupsBoard builds a board of many small road groups (dominoes and short bars separated by gaps,
+// walls or enemy stones), with a random split between the colours: boards whose group count exceeds
+// size or 2*size (the capacity of the per-position group array) are otherwise very rare.
+func groupsBoard(r *RNG, size int) *tak.Position {
+	board := make([][]tak.Square, size)
+	for y := range board {
+		board[y] = make([]tak.Square, size)
+	}
+	if r.Chance(1, 2) {
+		// dense mode: dominoes coloured like a checkerboard (neighbours differ, so nothing merges), then
+		// thinned per colour: up to size*size/4 groups of each colour, any split between them
+		keep := [2]int{[]int{15, 40, 70, 100}[r.Intn(4)], []int{15, 40, 70, 100}[r.Intn(4)]}
+		for y := 0; y < size; y++ {
+			for k := 0; 2*k+1 < size; k++ {
+				ci := (y + k) % 2
+				if r.Intn(100) >= keep[ci] {
+					if r.Chance(1, 2) {
+						c := []tak.Color{tak.White, tak.Black}[ci]
+						board[y][2*k] = tak.Square{tak.MakePiece(c, tak.Standing)}
+					}
+					continue
+				}
+				c := []tak.Color{tak.White, tak.Black}[ci]
+				board[y][2*k] = tak.Square{tak.MakePiece(c, tak.Flat)}
+				board[y][2*k+1] = tak.Square{tak.MakePiece(c, tak.Flat)}
+			}
+		}
+		if r.Chance(1, 3) {
+			// one square short of (or exactly) a column road on the last file when it is free
+			if size%2 == 1 {
+				col := []tak.Color{tak.White, tak.Black}[r.Intn(2)]
+				for y := 0; y < size; y++ {
+					board[y][size-1] = tak.Square{tak.MakePiece(col, tak.Flat)}
+				}
+				if r.Chance(1, 2) {
+					board[r.Intn(size)][size-1] = nil
+				}
+			}
+		}
+		cfg := tak.Config{Size: size, BlackWinsTies: r.Chance(1, 2), Pieces: size*size + 3, Capstones: 1}
+		p, err := tak.FromSquares(cfg, board, 2+r.Intn(40))
+		if err != nil {
+			panic(err)
+		}
+		return p
+	}
+	whiteShare := []int{5, 20, 50, 80, 95}[r.Intn(5)]
+	rowGap := r.Chance(2, 3) // separate rows of dominoes by a non-road row
+	y := 0
+	for y < size {
+		x := 0
+		for x+1 < size {
+			l := 2
+			if r.Chance(1, 5) && x+2 < size {
+				l = 3
+			}
+			col := tak.Black
+			if r.Intn(100) < whiteShare {
+				col = tak.White
+			}
+			for k := 0; k < l; k++ {
+				kind := tak.Flat
+				board[y][x+k] = tak.Square{tak.MakePiece(col, kind)}
+			}
+			x += l
+			// separator square: empty, a wall, or left to the next domino of the other colour
+			if x < size {
+				switch r.Intn(3) {
+				case 0:
+				case 1:
+					board[y][x] = tak.Square{tak.MakePiece(col.Flip(), tak.Standing)}
+				case 2:
+					board[y][x] = tak.Square{tak.MakePiece(col, tak.Standing)}
+				}
+				x++
+			}
+		}
+		y++
+		if rowGap && y < size {
+			// a row that cannot join the rows around it
+			for x := 0; x < size; x++ {
+				if r.Chance(1, 3) {
+					c := []tak.Color{tak.White, tak.Black}[r.Intn(2)]
+					board[y][x] = tak.Square{tak.MakePiece(c, tak.Standing)}
+				}
+			}
+			y++
+		}
+	}
+	// optionally one long line for one colour (a road next to many groups)
+	if r.Chance(1, 3) {
+		yy := size - 1
+		col := []tak.Color{tak.White, tak.Black}[r.Intn(2)]
+		for x := 0; x < size; x++ {
+			board[yy][x] = tak.Square{tak.MakePiece(col, tak.Flat)}
+		}
+		if r.Chance(1, 2) {
+			board[yy][r.Intn(size)] = nil // one short
+		}
+	}
+	cfg := tak.Config{Size: size, BlackWinsTies: r.Chance(1, 2), Pieces: size*size + 3, Capstones: 1}
+	p, err := tak.FromSquares(cfg, board, 2+r.Intn(40))
+	if err != nil {
+		panic(err)
+	}
+	return p
 }
